@@ -43,6 +43,7 @@ type Plan struct {
 	StepCap  int64       `json:"step_cap,omitempty"`
 	Record   string      `json:"record,omitempty"`
 	Foreign  bool        `json:"foreign_possible,omitempty"`
+	Shared   []string    `json:"shared_ent,omitempty"` // hex: caller buffers that several tasks pass windows of
 	Grants   bool        `json:"want_grants,omitempty"`
 }
 
@@ -61,6 +62,7 @@ type Out struct {
 	Grants      []zzsimrt.Grant    `json:"grants,omitempty"`
 	NGrants     int                `json:"n_grants"`
 	Foreign     int64              `json:"foreign_hook_calls,omitempty"`
+	SharedMut   string             `json:"shared_buffer_mutated,omitempty"`
 }
 
 // mux is the source installed for the whole run: a Read is served by the
@@ -108,6 +110,17 @@ func main() {
 		m.devs = append(m.devs, d)
 	}
 	bip39.VerifSwapSource(m)
+	var sharedCopy [][]byte
+	for _, hx := range p.Shared {
+		raw, _ := hex.DecodeString(hx)
+		buf := make([]byte, 96)
+		for i := range buf {
+			buf[i] = 0xA5
+		}
+		copy(buf, raw)
+		worker.SharedBufs = append(worker.SharedBufs, buf)
+		sharedCopy = append(sharedCopy, append([]byte(nil), buf...))
+	}
 	out := &Out{}
 	// written by the tasks; main reads them only after wg.Wait() (never on deadlock / step cap)
 	outcomes, delivered, reads := make([][]plan.Outcome, n), make([][]string, n), make([][][]plan.ReadRec, n)
@@ -167,6 +180,11 @@ func main() {
 	if res.Deadlock == "" && !res.StepCap && res.Protocol == "" {
 		wg.Wait() // the only happens-before edge the harness adds: task end -> main
 		out.Outcomes, out.Delivered, out.Reads = outcomes, delivered, reads
+		for i := range sharedCopy {
+			if string(sharedCopy[i]) != string(worker.SharedBufs[i]) {
+				out.SharedMut = fmt.Sprintf("caller buffer %d, shared read-only by several goroutines, was modified by the library", i+1)
+			}
+		}
 		// fold the outcomes into the run digest
 		ob, _ := json.Marshal(out.Outcomes)
 		h := res.Digest
